@@ -66,6 +66,12 @@ static void run_case(const JVal& in) {
             embedded_pairing_lqibe_decrypt(tmp.data(), len, &ct, &sk2, &id, hash_fill);    // another user's key, claimed identity
             embedded_pairing_lqibe_decrypt(tmp.data(), len, &ct, &sk3, &id, hash_fill);    // key from another master key
             embedded_pairing_lqibe_decrypt(tmp.data(), len, &ct4, &sk, &id, hash_fill);    // modified ciphertext
+            // a ciphertext whose y was altered (x and the other coordinate kept): no longer a curve point, still a different input
+            for (int w = 0; w < 2; w++) {
+                embedded_pairing_lqibe_ciphertext_t ct5 = ct; G2Affine* a5 = reinterpret_cast<G2Affine*>(&ct5.rp);
+                if (w == 0) a5->y.c0.add(a5->y.c0, Fq::one); else a5->y.c1.add(a5->y.c1, Fq::one);
+                embedded_pairing_lqibe_decrypt(tmp.data(), len, &ct5, &sk, &id, hash_fill);
+            }
             JVal neg = JVal::arr();
             for (auto& v : g_hash_inputs) neg.push(JVal::bytes(v.data(), v.size()));
             out.set("neg_in", neg);
